@@ -352,9 +352,38 @@ def r_dup(prog, R, init):
     r.info["setter_fields"] = n
 
 
+def r_copyall(prog, R):
+    r = R.rule("R-C16-COPYALL", "a function table copied member by member is copied completely", floor=1, analysis="A-TAB member coverage")
+    n = 0
+    for f in sorted(prog.funcs.values(), key=lambda x: x.key):
+        cp = {}
+        for b, i, el in f.elements():
+            if el["k"] == "asg" and el["e"]["op"] == "=":
+                l, rr = strip(el["e"]["l"]), strip(el["e"].get("r"))
+                if l is not None and rr is not None and l.get("k") == "mem" and rr.get("k") == "mem" and l["rec"] == rr["rec"] and l["f"] == rr["f"] \
+                        and render(l["b"]) != render(rr["b"]):
+                    cp.setdefault(l["rec"], {})[l["f"]] = el
+        for rec, fl in cp.items():
+            R0 = prog.record(rec)
+            if not R0 or len(fl) < 3:
+                continue
+            fptr = [x["n"] for x in R0["fields"] if "(*)" in x["ty"]]
+            if len(fptr) * 2 < len(R0["fields"]):
+                continue          # not a function table (partial copies of plain data structs are judged by R-C16-DUP)
+            n += 1
+            miss = [x["n"] for x in R0["fields"] if x["n"] not in fl]
+            k = "fn=%s copies all of struct %s" % (f.name, rec)
+            if miss:
+                r.viol(k, f.name, f.loc(next(iter(fl.values()))), "%s copies struct %s member by member but leaves out %s: the functionality behind those members silently stops working for every channel (e.g. link-local servers cannot be configured without the interface name/index functions)" % (f.name, rec, miss))
+            else:
+                r.ok(k + " (%d members)" % len(fl), f.loc(next(iter(fl.values()))))
+    r.require(n >= 1, "no member-wise function table copy found")
+
+
 def run(prog, R, tier):
     R.assume("string-level round trip of the server list (CSV/URI rendering) is not decided here")
     init = r_mask(prog, R)
     r_win(prog, R, init)
     r_ident(prog, R)
     r_dup(prog, R, init)
+    r_copyall(prog, R)
